@@ -489,12 +489,14 @@ fn process_tags(
     let remain = &mut Vec::new();
 
     while !tags.is_empty() && remain.len() != tags.len() {
+        // state of the context's change counter just after the first failure of this pass
+        let mut changes_at_first_failure: Option<u64> = None;
         for (idx, t) in &mut tags.iter_mut() {
             let idx = idx.clone();
             let el = if let Some(el) = t.get_element() {
-                // update early so reuse targets are available even if the element
+                // register early so reuse targets are available even if the element
                 // is not ready (e.g. within a specs block)
-                context.update_element(&el);
+                context.register_element(&el);
                 Some(el.clone())
             } else {
                 None
@@ -539,10 +541,18 @@ fn process_tags(
                         }
                     }
                     remain.push((idx, t.clone()));
+                    changes_at_first_failure.get_or_insert(context.change_count());
                 }
             }
         }
         if tags.len() == remain.len() {
+            return Err(SvgdxError::MultiError(element_errors));
+        }
+        // Another pass can only help if something a failed element might depend on
+        // (an element registration, a variable, ...) changed after the first failure.
+        // Without this check an unresolvable reference below n nested groups was
+        // evaluated 2^n times, each level retrying its failing child once more.
+        if changes_at_first_failure == Some(context.change_count()) {
             return Err(SvgdxError::MultiError(element_errors));
         }
 
